@@ -156,6 +156,9 @@ func registerMore2() {
 		Harnesses: []HarnessSpec{
 			{Dir: "jrpc2", Name: "Harness_C15_unmarshal", Reach: []string{"raw", "struct", "strict-ok", "strict-rejected", "wrapper-ok", "wrapper-rejected"}},
 			{Dir: "handler", Name: "Harness_C15_params", Reach: []string{"wrong-arity", "translated", "passthrough"}},
+			{Dir: "handler", Name: "Harness_C15_check", Reach: []string{"accepted", "rejected"}},
+			{Dir: "handler", Name: "Harness_C15_wrap", Reach: []string{"invalid-params", "decoded-arg", "error-passed", "result-passed"}},
+			{Dir: "handler", Name: "Harness_C15_embedded", Reach: []string{"embedded-mapped", "embedded-arity"}},
 		},
 	})
 	addProp(&PropSpec{
